@@ -239,6 +239,14 @@ theorem Ans.ite {α : Type} {Q : α → Prop} {c : Prop} [Decidable c] {a b : M 
   · simp only [hc, if_true]; exact h1
   · simp only [hc, if_false]; exact h2
 
+theorem Ans.pureBind {α β : Type} {Q : β → Prop} {a : α} {f : α → M β} (h : Ans Q (f a)) :
+    Ans Q ((Pure.pure a : M α) >>= f) := by
+  constructor
+  intro s b s'' e
+  obtain ⟨a', s', e1, e2⟩ := bind_ok.mp e
+  obtain ⟨rfl, rfl⟩ := pure_ok.mp e1
+  exact h.h _ _ _ e2
+
 /-- the conditional, remembering the test -/
 theorem Ans.iteH {α : Type} {Q : α → Prop} {c : Prop} [Decidable c] {a b : M α} (h1 : c → Ans Q a)
     (h2 : ¬ c → Ans Q b) : Ans Q (if c then a else b) := by
@@ -289,11 +297,13 @@ macro_rules
     first
       | exact Ans.pure trivial
       | exact Ans.pure rfl
+      | exact Ans.pure (by with_reducible assumption)
       | exact Ans.throw _
       | exact Ans.panicAt _ _ _
       | exact Ans.fuelOut _
       | exact inferInstance
-      | assumption
+      | with_reducible assumption
+      | with_reducible apply Ans.pureBind
       | with_reducible apply Ans.bind
       | with_reducible apply Ans.iteH
       | intro _
